@@ -89,6 +89,11 @@ _SEEN = {}
 def report(ck, fails, replay, prefix=''):
     """Turn oracle failures into violations (at most two per distinct match over the whole run)."""
     for clause, detail, match in fails:
+        match = dict(match)
+        spec = replay.get('spec') if isinstance(replay, dict) else None
+        if isinstance(spec, dict) and 'adaptivity_params' in spec:
+            # context that distinguishes causes: the interpolation-between-restarts controller writes u[0] itself
+            match['interpolate_between_restarts'] = bool(spec['adaptivity_params'].get('interpolate_between_restarts'))
         key = (prefix,) + tuple(sorted(match.items()))
         _SEEN[key] = _SEEN.get(key, 0) + 1
         if _SEEN[key] > 2:
